@@ -38,7 +38,7 @@ def groups(prop, seed, quick, modes=("",)):
     # the imported chain, validated with the property's own slice (state lost, reset or invented by the import is reported under the
     # property it breaks, not only under C18)
     g.append(("Trace_Locking.tla", "Trace_Locking_%s_pr1.cfg" % prop,
-              [("%sreimp_%d" % (prop.lower(), j), ["reimport", "-n", 2 if quick else 12, "-depth", 30, "-seed", seed * 1000 + 300 + j, "-mode", "locking"]) for j in range(4 if quick else 8)]))
+              [("%sreimp_%d" % (prop.lower(), j), ["reimport", "-n", 3 if quick else 12, "-depth", 30, "-seed", seed * 1000 + 300 + j, "-mode", "locking"]) for j in range(6 if quick else 8)]))
     return g
 
 
